@@ -158,6 +158,9 @@ def check_batchify(ctx):
             if lead_shape(w, nl) != m_ushape or not rows_equal(w, x, nl, [p // (N // B) for p in range(N)]):
                 viol(ctx, "roundtrip", "unbatchify(batchify(x, s), s) is not x in every copy slice",
                               {"B": B, "shape": ks, "kind": kind})
+            if kind == "t1" and B >= 2 and len(ks) >= 2 and min(ks) >= 2 and N <= 48:
+                ctx.sample({"what": "batchify/unbatchify", "B": B, "shape": ks, "expanded_row_to_instance": row_ids(y, 1),
+                            "regrouped_shape": lead_shape(u, nl), "regrouped_rows_row_major": row_ids(u, nl)}, cap=1)
             if kind == "t1":
                 # oracle on the REAL outcome
                 spec_lines.append(f"ops.spec.expand {B} | {ilist(row_ids(y, 1))}")
@@ -345,7 +348,7 @@ def check_starts_envs(ctx):
             n = ctx.rng.choice([4, 5, 6, 8])
             try:
                 env = _make_env(name, n)
-                B = ctx.rng.randint(1, 4)
+                B = [2, 4, 3, 1, 6][rep_i % 5]  # k runs over 1..kmax, so every env sees gcd(B, k) > 1 (B=2/4 with k=2,4,6 …)
                 td = env.reset(batch_size=[B])
             except Exception as e:  # environment cannot be built here (e.g. needs a download)
                 ctx.note(f"{name}: cannot build/reset ({type(e).__name__}); covered by the generic-function check only")
@@ -460,7 +463,45 @@ def check_starts_op(ctx):
             viol(ctx, "starts-not-generic:op", "op: with all customers feasible the starts differ from the generic rule",
                  {"rows": rows, "k": k, "sel": sel})
         _starts_oracle(ctx, "op", mask, sel, B, k, 1, extra={"crafted": tag, "torch_seed": seed, "rows": rows})
+        if B >= 2 and "fewer" in tag:
+            ctx.sample({"what": "OP select_start_nodes, feasible counts differing inside the batch", "k": k,
+                        "feasible_first_moves": [[j + 1 for j, v in enumerate(r) if v] for r in rows],
+                        "forced_starts_per_instance": [[sel[j * B + b] for j in range(k)] for b in range(B)]}, cap=2)
         ctx.case(("starts-op", n, k, tuple(map(tuple, rows))), nontrivial=True)
+    # bundled generator data with heterogeneous length budgets inside one batch (tight … loose)
+    for _ in range(ctx.budget(6, 40)):
+        n = ctx.rng.choice([5, 8, 10])
+        env = OPEnv(generator_params=dict(num_loc=n))
+        B = ctx.rng.choice([2, 3, 4, 6])
+        torch.manual_seed(ctx.rng.randrange(1 << 30))
+        raw = env.generator(batch_size=[B])
+        d0 = (raw["locs"] - raw["depot"][:, None]).norm(dim=-1)  # [B, n]
+        srt = d0.sort(-1).values
+        # instance b can reach about (b+1)*n/B of its customers
+        cut = torch.stack([srt[b, min(n - 1, max(0, (b + 1) * n // B - 1))] for b in range(B)])
+        raw["max_length"] = 2 * cut + 1e-3
+        td = env.reset(raw.clone())  # reset writes into the TensorDict it is given
+        mask = td["action_mask"]
+        counts = mask[:, 1:].sum(-1).tolist()
+        for k in sorted({1, 2, min(counts), max(counts), n, n + 2}):
+            if k < 1:
+                continue
+            try:
+                sel = env.select_start_nodes(td, k).tolist()
+            except Exception as e:  # noqa: BLE001
+                viol(ctx, "starts-raised:op", "op: select_start_nodes raised on a reset batch", {"k": k, "counts": counts, "error": repr(e)[:200]})
+                continue
+            mf = parse_fields(ctx.driver.ask(f"ops.opstarts {n} {k} {B} | {ilist(mask.int().flatten().tolist())}"))
+            if sel != csv(mf["sel"]):
+                ctx.disagreement("op select_start_nodes", {"mask": mask.int().tolist(), "k": k, "real": sel, "model": csv(mf["sel"])})
+            for b in range(B):
+                solo = env.select_start_nodes(env.reset(raw[b: b + 1].clone()), k).tolist()
+                if solo != [sel[j * B + b] for j in range(k)]:
+                    viol(ctx, "starts-batch-dependent:op", "op: forced starts of an instance depend on its batch-mates",
+                         {"feasible_counts": counts, "k": k, "instance": b, "solo": solo, "batched": [sel[j * B + b] for j in range(k)]})
+            _starts_oracle(ctx, "op", mask, sel, B, k, 1, extra={"heterogeneous_max_length": True, "feasible_counts": counts})
+            ctx.count("op.heterogeneous-budgets" + (".counts-differ" if len(set(counts)) > 1 else ""))
+            ctx.case(("starts-op-het", n, B, k, tuple(counts)), nontrivial=True)
 
 
 def check_starts_svrp(ctx):
@@ -580,6 +621,20 @@ def check_select_best(ctx):
         if not same_rollout:
             viol(ctx, "select_best:mixed-rollouts", "_select_best returned actions / log-probs / td of different rows",
                           {"B": B, "k": k, "rewards": rew, "td_rows": got})
+        # the same selection with `store_all_logp=True` (log-probs of all actions: [N, T, A])
+        A_ = 2
+        logp3 = logp[:, :, None] - torch.arange(A_)[None, None].float() / 1024.0
+        ds3 = Greedy(multistart=True, num_starts=k, select_best=True, store_all_logp=True)
+        ds3.num_starts = k
+        ds3.logprobs = [logp3[:, t] for t in range(L)]
+        ds3.actions = [actions[:, t] for t in range(L)]
+        lp3, ac3, td3, _ = ds3.post_decoder_hook(td, env)
+        if (td3["row"].tolist() != got or list(lp3.shape) != [B, L, A_]
+                or not all(torch.equal(lp3[b], logp3[got[b]]) and torch.equal(ac3[b], actions[got[b]]) for b in range(B))):
+            viol(ctx, "select_best:mixed-rollouts", "_select_best (store_all_logp) returned log-probs / actions of different rows",
+                 {"B": B, "k": k, "rewards": rew, "td_rows": td3["row"].tolist()})
+        ctx.sample({"what": "_select_best", "B": B, "k": k, "rewards_row_major_k": rew[:24], "chosen_rows": got, "returned_rewards": ret}
+                   ) if (B >= 2 and k >= 3 and mode == "ties") else None
         if got == first:
             tie_first += got != last
         elif got == last:
@@ -930,7 +985,7 @@ def check_policy_e2e(ctx):
         env = get_env(name, generator_params=dict(num_loc=n))
         pol = AttentionModelPolicy(env_name=name, embed_dim=16, num_encoder_layers=1, num_heads=2, feedforward_hidden=16)
         pol.eval()
-        for B, k in [(1, 2), (3, 3), (2, 5)][: ctx.budget(2, 3)]:
+        for B, k in [(2, 4), (3, 3), (1, 2), (2, 5), (4, 2)][: ctx.budget(2, 5)]:
             td0 = env.reset(batch_size=[B])
             nAct = td0["action_mask"].shape[-1]
             nLocs = td0["locs"].shape[-2]
@@ -1028,7 +1083,7 @@ def _batch_ids(batch) -> List[int]:
     return [int(v) for v in batch["id"].tolist()]
 
 
-def _batch_faithful(batch, src: TensorDict, ids: List[int], extra_key=None) -> str:
+def _batch_faithful(batch, src: TensorDict, ids: List[int], extra_key=None, leaked_ok=False) -> str:
     """every entry of the delivered batch is bit-identical (values, dtype, shape) to the rows `ids` of the
     source; returns '' or a description of the first difference"""
     if not isinstance(batch, TensorDict):
@@ -1037,7 +1092,7 @@ def _batch_faithful(batch, src: TensorDict, ids: List[int], extra_key=None) -> s
         return f"batch_size {list(batch.batch_size)} != [{len(ids)}]"
     keys = set(batch.keys())
     want = set(src.keys()) | ({extra_key} if extra_key else set())
-    if keys != want:
+    if keys != want and not (leaked_ok and want <= keys):
         return f"keys {sorted(keys)} != {sorted(want)}"
     sel = torch.tensor(ids, dtype=torch.long)
     for k in src.keys():
@@ -1063,39 +1118,57 @@ def _loader(ds, bs, shuffle, seed, via_module):
     return DataLoader(ds, batch_size=bs, shuffle=shuffle, collate_fn=ds.collate_fn, generator=g)
 
 
-def _check_loader(ctx, tag, ds, src, n, bs, shuffle, extra=None, via_module=False):
-    """drive one loader; compare with the model's batches under the observed sampler order and evaluate
-    the Spec oracle on the real outcome.  `extra`: tensor [n] whose value for instance i is 1000 + 3 i."""
-    seed = ctx.rng.randrange(1 << 30)
-    batches = list(_loader(ds, bs, shuffle, seed, via_module))
+def _extra_ids(e, extra, n):
+    """instance id each delivered extra value belongs to: looked up in the EXPECTED per-instance values (first
+    column; they are pairwise distinct); a value that is nobody's (e.g. a stale one) maps to the id `n`"""
+    table = {float(v): i for i, v in enumerate(extra.reshape(extra.shape[0], -1)[:, 0].tolist())}
+    return [table.get(float(v), n) for v in e.reshape(e.shape[0], -1)[:, 0].tolist()]
+
+
+def _check_batches(ctx, tag, batches, src, n, bs, shuffle, extra=None, wit=None, extra_key="extra", leaked_ok=False):
+    """judge the batches one pass over a loader delivered: model (chunks of the observed order) and Spec oracle"""
+    wit = dict(wit or {}, dataset=tag, n=n, batch_size=bs, shuffle=shuffle)
     ids = [_batch_ids(b) for b in batches]
     order = [i for b in ids for i in b]
     f = parse_fields(ctx.driver.ask(f"ops.loader {bs} | {ilist(order if shuffle else range(n))}"))
     model_batches = [csv(s) for s in f.get("batches", "").split(";")] if f.get("batches") else []
-    wit = {"dataset": tag, "n": n, "batch_size": bs, "shuffle": shuffle, "torch_seed": seed}
     if ids != model_batches:
         ctx.disagreement("loader batches", dict(wit, real=ids, model=model_batches))
     ex_ids: List[int] = []
     for b, bid in zip(batches, ids):
-        d = _batch_faithful(b, src, bid, extra_key="extra" if extra is not None else None)
+        d = _batch_faithful(b, src, bid, extra_key=extra_key if extra is not None else None, leaked_ok=leaked_ok)
         if d:
             viol(ctx, f"loader:{tag}:unfaithful", "a delivered batch differs from the original instances (values/dtype/shape)",
-                          dict(wit, difference=d))
+                 dict(wit, difference=d))
             break
         if extra is not None:
-            e = b["extra"]
+            e = b[extra_key]
             if e.dtype != extra.dtype or list(e.shape) != [len(bid)] + list(extra.shape[1:]):
                 viol(ctx, f"loader:{tag}:extra-dtype-shape", "the extra key changed dtype/shape", dict(wit, got=str(e.dtype)))
-            ex_ids += [int(round((float(v) - 1000.0) / 3.0)) for v in e.reshape(len(bid), -1)[:, 0].tolist()]
+            if not torch.equal(e, extra[torch.tensor(bid, dtype=torch.long)]):
+                ctx.count("extra-mismatch-batches")
+            ex_ids += _extra_ids(e, extra, n)
     r = parse_fields(ctx.driver.ask(
         f"ops.spec.loader {n} {bs} {int(shuffle)} | {ilist(order)} | {ilist(len(b) for b in ids)} | {ilist(ex_ids)}"))
     if r["ok"] != "1":
         viol(ctx, f"loader:{tag}:order-or-extra", "instances lost / duplicated / reordered, a non-final partial batch, or an "
-                      "extra value delivered with another instance", dict(wit, order=order, sizes=[len(b) for b in ids], extra_ids=ex_ids))
+             "extra value delivered with another instance (or a value that is not the current one of any instance)",
+             dict(wit, order=order, sizes=[len(b) for b in ids], extra_ids=ex_ids))
     ctx.count(f"loader.{tag}." + ("shuffle" if shuffle else "seq") + (".extra" if extra is not None else "")
               + (".partial" if n % bs else ".full"))
-    ctx.case(("loader", tag, n, bs, shuffle, extra is not None, via_module), nontrivial=n > 1)
+    if n >= 5 and extra is not None and shuffle:
+        ctx.sample({"what": "loader pass", **{k: wit[k] for k in ("dataset", "n", "batch_size", "shuffle")}, "delivered_ids": ids[:4],
+                    "extra_ids": ex_ids[:8]})
     return order
+
+
+def _check_loader(ctx, tag, ds, src, n, bs, shuffle, extra=None, via_module=False, **kw):
+    """drive one loader; compare with the model's batches under the observed sampler order and evaluate
+    the Spec oracle on the real outcome.  `extra`: the expected per-instance extra values (pairwise distinct)."""
+    seed = ctx.rng.randrange(1 << 30)
+    batches = list(_loader(ds, bs, shuffle, seed, via_module))
+    ctx.case(("loader", tag, n, bs, shuffle, extra is not None, via_module, seed), nontrivial=n > 1)
+    return _check_batches(ctx, tag, batches, src, n, bs, shuffle, extra, {"torch_seed": seed}, **kw)
 
 
 def check_datasets(ctx):
@@ -1188,9 +1261,226 @@ def check_wrap(ctx):
             ctx.count("wrap_dataset")
 
 
+def _mutate_batch(b):
+    """what a careless consumer may do with a delivered batch: modify it in place"""
+    for k in list(b.keys()):
+        v = b[k]
+        if v.dtype == torch.bool:
+            v.logical_not_()
+        else:
+            v.add_(7)
+
+
+def check_histories(ctx):
+    """multi-step histories on the SAME objects: wrap → read (twice through the same DataLoader, the delivered
+    batches being modified in place by the consumer) → read the underlying data set → wrap the same underlying
+    data set again with NEW values → read …, for every data set class, with and without shuffling, with a custom
+    key name / 2-d extra.  (Stacking a second `add_key` on an ExtraKeyDataset is not exercised: the nested wrapper
+    reads `dataset.data` of the BASE and so drops the first key unless it leaked into shared dicts — outside C17's text.)"""
+    cases = [(n, bs) for n in (1, 2, 5, 8, 13) for bs in (1, 2, 3, 5, 14)]
+    if ctx.tier != "thorough" and not ctx.searching:
+        cases = [c for k, c in enumerate(cases) if k % 2 == 0]
+    for n, bs in cases:
+        src = _inst_td(n)
+        for cname, cls in _dataset_classes():
+            base = cls(src.clone())
+            key = ctx.rng.choice(["extra", "extra", "bl_val"])
+            two_d = ctx.rng.random() < 0.3
+            for epoch in range(3):
+                vals = 1000.0 * (epoch + 1) + 3.0 * torch.arange(n, dtype=torch.float32)
+                extra = torch.stack([vals, -vals], 1) if two_d else vals
+                if key == "extra":
+                    wrapped = base.add_key("extra", extra.clone())
+                else:
+                    from rl4co.data.dataset import ExtraKeyDataset
+
+                    if hasattr(base, "data") and isinstance(base.data, list):
+                        wrapped = ExtraKeyDataset(base, extra.clone(), key_name=key)
+                    else:
+                        wrapped = base.add_key(key, extra.clone())
+                tag = f"history({cname})"
+                wit = {"epoch_of_wrapping": epoch, "key": key, "history": "wrap/read/read/base-read per epoch on the same base"}
+                for shuffle in (False, True):
+                    seed = ctx.rng.randrange(1 << 30)
+                    dl = _loader(wrapped, bs, shuffle, seed, via_module=ctx.rng.random() < 0.3)
+                    for pass_i in range(2):  # re-iteration of the same DataLoader object
+                        batches = list(dl)
+                        _check_batches(ctx, tag, batches, src, n, bs, shuffle, extra, dict(wit, torch_seed=seed, pass_=pass_i),
+                                       extra_key=key, leaked_ok=True)
+                        for b in batches:
+                            _mutate_batch(b)
+                        ctx.case(("history", cname, n, bs, epoch, shuffle, pass_i, key), nontrivial=True)
+                # the underlying data set still delivers the original instances (an extra key written into shared
+                # items by the wrapper is tolerated, but must not displace anything)
+                if wrapped is not base:
+                    batches = list(_loader(base, bs, False, 0, False))
+                    _check_batches(ctx, f"history-base({cname})", batches, src, n, bs, False, None, wit, leaked_ok=True)
+                    if any(key in b.keys() for b in batches):
+                        ctx.count(f"alias.{cname}.base-items-carry-wrapper-key")
+
+
+def check_index_batches(ctx):
+    """explicit index batches as a sampler may produce them — unsorted, non-contiguous, reversed, with
+    repetitions, first/last differing by len-1 without being a run — through `DataLoader(batch_sampler=…)`,
+    through `__getitems__` directly where the class has that fast path, and through `__getitem__`"""
+    from torch.utils.data import DataLoader
+
+    n = 12
+    src = _inst_td(n)
+    crafted = [[0, 2, 1, 3], [0, 7, 5, 3], [3, 2, 1, 0], [5, 4], [2, 4, 6, 8], [11], [1, 3, 2], [4, 4, 9], [9, 0, 10, 1, 11],
+               [6, 7, 8], [8, 6, 7], [10, 2, 11, 3, 9, 4, 8], [0, 11], [7, 9, 8, 10], list(range(n)), list(range(n))[::-1]]
+    for _ in range(ctx.budget(20, 200)):
+        crafted.append([ctx.rng.randrange(n) for _ in range(ctx.rng.randint(1, 7))])
+    extra = 1000.0 + 3.0 * torch.arange(n, dtype=torch.float32)
+    variants = []
+    for cname, cls in _dataset_classes():
+        variants.append((cname, cls(src.clone()), None))
+        variants.append((cname + "+add_key", cls(src.clone()).add_key("extra", extra.clone()), extra))
+    for tag, ds, ex in variants:
+        routes = [("batch_sampler", list(DataLoader(ds, batch_sampler=crafted, collate_fn=ds.collate_fn)))]
+        if hasattr(ds, "__getitems__"):
+            routes.append(("__getitems__", [ds.collate_fn(ds.__getitems__(list(idx))) for idx in crafted]))
+        else:
+            routes.append(("__getitem__", [ds.collate_fn([ds[i] for i in idx]) for idx in crafted]))
+        for route, batches in routes:
+            lines = []
+            for idx, b in zip(crafted, batches):
+                d = _batch_faithful(b, src, idx, extra_key="extra" if ex is not None else None)
+                got = _batch_ids(b) if isinstance(b, TensorDict) and "id" in b.keys() else []
+                exi = _extra_ids(b["extra"], ex, n) if (ex is not None and isinstance(b, TensorDict) and "extra" in b.keys()) else []
+                lines.append(f"ops.spec.fetch 0 | {ilist(idx)} | {ilist(got)} | {ilist(exi)}")
+                if d and got == idx:
+                    viol(ctx, f"fetch:{tag}:unfaithful", "an index batch delivered the right ids but altered entries", {"route": route, "idx": idx, "difference": d})
+                ctx.case(("fetch", tag, route, tuple(idx)), nontrivial=len(idx) > 1)
+            for idx, b, r in zip(crafted, batches, ctx.driver.ask_many(lines)):
+                if parse_fields(r)["ok"] != "1":
+                    viol(ctx, f"fetch:{tag}:wrong-instances", "an explicit index batch did not deliver exactly the requested instances in the "
+                         "requested order (with their own extra values)", {"route": route, "requested": idx,
+                                                                           "delivered": _batch_ids(b) if isinstance(b, TensorDict) else None})
+            ctx.count(f"fetch.{tag}.{route}", len(crafted))
+    ctx.sample({"what": "explicit index batches", "examples": crafted[:4], "classes": [v[0] for v in variants]})
+
+
+class _ShiftPolicy(torch.nn.Module):
+    """stub policy whose reward on instance i is 1000 + 3 i + shift/4·(1 + i mod 2) (pairwise distinct, exact in
+    float32); `shift` models training progress and is frozen by `copy.deepcopy` inside RolloutBaseline"""
+
+    def __init__(self, shift=0):
+        super().__init__()
+        self.p = torch.nn.Parameter(torch.zeros(1))
+        self.shift = shift
+        self.seen = []
+
+    def value(self, ids):
+        return 1000.0 + 3.0 * ids.float() + 0.25 * self.shift * (1 + ids % 2).float()
+
+    def forward(self, td, env=None, decode_type=None, **kw):
+        self.seen.append(int(td.batch_size[0]))
+        return {"reward": self.value(td["id"])}
+
+
+def check_baseline_epochs(ctx):
+    """several epochs of RolloutBaseline.setup / wrap_dataset / epoch_callback with a policy that keeps improving:
+    bl_vals[i] and the value attached to item i must be the CURRENT baseline policy's reward on instance i; the
+    same fixed training set is re-wrapped every epoch (and fresh ones too); evaluation batch sizes that do not
+    divide the set sizes"""
+    from rl4co.models.rl.reinforce.baselines import RolloutBaseline, WarmupBaseline
+
+    combos = [(cn, m, n, ebs, bs) for cn in range(3) for (m, n, ebs, bs) in [(10, 7, 3, 2), (6, 12, 4, 5), (9, 5, 7, 3), (8, 8, 8, 8)]]
+    if ctx.tier != "thorough" and not ctx.searching:
+        combos = [c for k, c in enumerate(combos) if k % 2 == 0 or c[0] == 0]
+    for cn, m, n, ebs, bs in combos:
+        cname, cls = _dataset_classes()[cn]
+        env = types.SimpleNamespace(reset=lambda batch: batch, name="stub",
+                                    dataset=lambda batch_size=None, phase="train", **kw: cls(_inst_td(batch_size[0] if isinstance(batch_size, (list, tuple)) else batch_size)))
+        pol = _ShiftPolicy(0)
+        bl = RolloutBaseline()
+        wrapper = bl
+        if cn == 1:
+            wrapper = WarmupBaseline(bl, n_epochs=1)
+            wrapper.alpha = 1.0
+        wit = {"dataset": cname, "val_size": m, "train_size": n, "eval_bs": ebs}
+        try:
+            bl.setup(pol, env, batch_size=ebs, device="cpu", dataset_size=m)
+            src = _inst_td(n)
+            fixed = cls(src.clone())  # a fixed training set, re-wrapped every epoch
+            for epoch in range(3):
+                want_val = bl.policy.value(torch.arange(m))
+                if list(bl.bl_vals.shape) != [m] or not torch.equal(torch.as_tensor(bl.bl_vals), want_val):
+                    viol(ctx, f"rollout:{cname}:bl_vals-misaligned", "RolloutBaseline.bl_vals[i] is not the baseline policy's reward on instance i",
+                         dict(wit, epoch=epoch, got=[float(v) for v in bl.bl_vals][:20], want=want_val.tolist()[:20]))
+                if bl.policy is pol:
+                    viol(ctx, "rollout:baseline-policy-not-frozen", "the baseline policy is the live policy, not a copy", wit)
+                want = bl.policy.value(torch.arange(n))
+                for which, base in (("same-base", fixed), ("fresh-base", cls(src.clone()))):
+                    wrapped = wrapper.wrap_dataset(base, env, batch_size=ebs, device="cpu")
+                    for shuffle in (False, True):
+                        seed = ctx.rng.randrange(1 << 30)
+                        dl = _loader(wrapped, bs, shuffle, seed, via_module=False)
+                        for pass_i in range(2):
+                            _check_batches(ctx, f"epochs({cname})", list(dl), src, n, bs, shuffle, want,
+                                           dict(wit, epoch=epoch, base=which, baseline_shift=bl.policy.shift, torch_seed=seed), leaked_ok=True)
+                    ctx.case(("epochs", cname, m, n, ebs, bs, epoch, which), nontrivial=True)
+                # training improves the live policy; the baseline must not move until it is challenged
+                pol.shift += 1 + epoch
+                if bl.policy.shift == pol.shift:
+                    viol(ctx, "rollout:baseline-policy-not-frozen", "the baseline policy follows the live policy", wit)
+                bl.epoch_callback(pol, env, batch_size=ebs, device="cpu", epoch=epoch, dataset_size=m)
+                if bl.policy.shift != pol.shift:
+                    viol(ctx, f"rollout:{cname}:baseline-not-updated", "a strictly better candidate (paired t-test, p≈0) did not replace "
+                         "the baseline policy — its per-instance values were misaligned or truncated", dict(wit, epoch=epoch))
+                ctx.count("baseline.epochs")
+        except Exception as e:  # noqa: BLE001
+            viol(ctx, f"rollout:{cname}:raised", "RolloutBaseline setup / wrap_dataset / epoch_callback raised on a valid history",
+                 dict(wit, error=repr(e)[:300]))
+
+
+def check_eval_call(ctx):
+    """tasks/eval.py:EvalBase.__call__ — concatenation of per-batch rewards and zero-padded actions over a loader
+    with a final partial batch"""
+    from rl4co.tasks.eval import GreedyEval
+
+    class Pol(torch.nn.Module):
+        def __init__(self):
+            super().__init__()
+            self.p = torch.nn.Parameter(torch.zeros(1))
+
+        def forward(self, td, decode_type=None, **kw):
+            B = td.batch_size[0]
+            L = 2 + B % 3  # sequence length differs between batches → padding path
+            return {"actions": (td["id"][:, None] + 1).expand(B, L).clone()}
+
+    env = types.SimpleNamespace(reset=lambda td: td, get_reward=lambda td, a: 1000.0 + 3.0 * td["id"].float(), name="stub")
+    for cname, cls in _dataset_classes():
+        for n, bs in [(1, 1), (7, 3), (10, 4), (5, 7), (9, 3), (11, 5)]:
+            src = _inst_td(n)
+            ds = cls(src.clone())
+            shuffle = False
+            dl = _loader(ds, bs, shuffle, 0, via_module=True)
+            import contextlib
+            import io
+
+            with contextlib.redirect_stdout(io.StringIO()):  # EvalBase prints timing lines
+                out = GreedyEval(env, progress=False)(Pol(), dl)
+            want = 1000.0 + 3.0 * torch.arange(n).float()
+            ok = list(out["rewards"].shape) == [n] and torch.equal(out["rewards"], want) and out["actions"].shape[0] == n \
+                and torch.equal(out["actions"][:, 0], torch.arange(n) + 1) \
+                and all(set(out["actions"][i].tolist()) <= {i + 1, 0} for i in range(n))
+            ctx.count("eval.__call__" + (".partial" if n % bs else ".full"))
+            ctx.case(("evalcall", cname, n, bs), nontrivial=n > 1)
+            if not ok:
+                viol(ctx, f"eval-call:{cname}:misaligned", "EvalBase.__call__: rewards/actions entry i is not instance i's "
+                     "(concatenation over batches incl. the final partial one)",
+                     {"dataset": cname, "n": n, "batch_size": bs, "rewards": out["rewards"].tolist()[:20]})
+
+
 def run_c17(ctx):
     check_datasets(ctx)
     check_wrap(ctx)
+    check_histories(ctx)
+    check_index_batches(ctx)
+    check_baseline_epochs(ctx)
+    check_eval_call(ctx)
 
 
 # --------------------------------------------------------------------------------------------------
@@ -1289,6 +1579,8 @@ C17_THEOREMS = [
     T("Rl4co.Ops.rollout_aligned", "proved", "RowWise f => concatenated per-batch rewards = map g ds, any evaluation batch size"),
     T("Rl4co.Ops.wrap_aligned", "proved", "item i of the wrapped data set = (instance i, baseline reward of instance i)"),
     T("Rl4co.Ops.wrap_travels", "proved", "through any order and batch size each delivered pair is (ds[i], g ds[i])"),
+    T("Rl4co.Ops.rewrap_current", "proved", "shared list-of-dicts items: after ANY history, a read through a wrapper returns the current wrapper's value, other entries untouched"),
+    T("Rl4co.Ops.readMany_current", "proved", "the same for a whole pass over any index list (any order, repetitions) from any store"),
 ]
 
 NOTE_P = ("translator tie: `Params.opsLoopsReversed`, `opsNumStartsDepotEnvs`, `opsNoDepotStartEnvs`, `opsOpClampMin`, `opsOpArgsortStable`, "
